@@ -3,7 +3,9 @@ C17 — mixin RPCs (google.longrunning.Operations, google.iam.v1.IAMPolicy, goog
 
 Follows
   gapic/schema/api.py      : has_*_mixin, _get_methods_from_service, _has_iam_overrides, mixin_api_methods,
-                             mixin_http_options (wrappers.HttpRule.try_parse_http_rule)
+                             mixin_http_options (wrappers.HttpRule.try_parse_http_rule), protos / services / subpackages
+                             (`subpackage_view`)
+  gapic/generator/generator.py : _render_template (`%sub`: which `api` object a service's templates get)
   gapic/schema/mixins.py   : MIXINS_MAP (request / response type strings; bridged as Pinned.mixinsMap)
   templates …/%service/_mixins.py.j2, _async_mixins.py.j2, client.py.j2 / async_client.py.j2 (`opts.add_iam_methods`
                              blocks), transports/_mixins.py.j2, transports/_rest_mixins_base.py.j2,
@@ -93,11 +95,36 @@ structure Yaml where
   rules : List Rule
 deriving Repr
 
-/-- what the selection reads off the API being generated: the RPC names of every service of the
-protos to generate (`API.services`). -/
+/-- what the selection reads off the `api` object it is evaluated on: the RPC names of every service of
+`API.services` — the services of `API.protos`, i.e. of the files to generate whose sub-package starts with
+`api.subpackage_view`.  For the API object itself (view `()`) that is every service of the API; for the
+object the templates of a sub-package service are rendered with it is NOT (see `FullApi.view`). -/
 structure Api where
   services : List (List String)
 deriving Repr
+
+/-- a service of the API being generated: the sub-package (relative to the API package) of the FILE that
+declares it (`service.meta.address.subpackage`, `[]` = the API package itself) and its RPC names -/
+structure Svc where
+  subpackage : List String
+  methods : List String
+deriving Repr
+
+/-- the whole API: every service of every file to generate -/
+structure FullApi where
+  services : List Svc
+deriving Repr
+
+/-- `dataclasses.replace(api, subpackage_view=v)` as the selection sees it: `API.protos` keeps the files
+with `address.subpackage[:len(v)] == v`, `API.services` chains their services. -/
+def FullApi.view (a : FullApi) (v : List String) : Api :=
+  ⟨(a.services.filter (fun s => v.isPrefixOf s.subpackage)).map (·.methods)⟩
+
+/-- the `api` the per-service templates (`%sub/services/%service/…`) of service `s` are rendered with:
+`Generator._render_template` recurses into `api_schema.subpackages` and renders a service only in the view
+whose `subpackage_view` equals the service's own sub-package.  A service of the API package sees every
+service of the API; a service of a sub-package sees the services of that sub-package (and below) only. -/
+def FullApi.seenBy (a : FullApi) (s : Svc) : Api := a.view s.subpackage
 
 /-- `has_location_mixin` / `has_iam_mixin` / `has_operations_mixin` -/
 def hasMixin (y : Yaml) (a : MixinApi) : Bool := y.apis.any (· == a.fullName)
